@@ -7,6 +7,7 @@
   internal naming).  Exact in the rational model.
 -/
 import Boario.Properties.C11
+import Boario.Lemmas.PermRun
 
 namespace Boario
 variable {d : Dims}
@@ -31,6 +32,12 @@ structure ObsEq (s s2 : Sim d) : Prop where
   rebProdTot : ∀ i, Boario.rebTot s.econ.rebProd i = Boario.rebTot s2.econ.rebProd i
   trackers : (s.trackers.map Tracker.strip).Perm (s2.trackers.map Tracker.strip)
 
+/-- the simulation relation of `Boario.Lemmas.PermRun` (same economy up to the naming of the blocks,
+    same trackers up to order and ids) gives equality of everything observable -/
+theorem obsEq_of_simRel {s s2 : Sim d} (r : SimRel s s2) : ObsEq s s2 :=
+  ⟨r.p, r.dt, r.t, r.econ.orders, r.econ.fd, r.econ.dTot, r.econ.stock, r.econ.prod, r.econ.alpha,
+    r.econ.deltaTot, r.econ.fdUnmet, r.econ.rebT, r.econ.rebProdT, r.trackers⟩
+
 /-- ORDER INDEPENDENCE: from two initial states that differ only by a permutation of the (pending)
     event list, every run of `k` steps of the one is matched by a run of the other with the same
     observable state; in particular one succeeds iff the other does. -/
@@ -41,6 +48,15 @@ theorem perm_invariant_run (s s2 : Sim d) (k : Nat)
     (hpend : ∀ tr ∈ s.trackers, tr.status = .pending ∧ tr.rid = none)
     (s' : Sim d) (h : runN k s = some s') :
     ∃ s2', runN k s2 = some s2' ∧ ObsEq s' s2' := by
-  sorry
+  -- `hnb`, `hreb` are not needed: the block count and the stale blocks are only seen through totals
+  have _ := hnb
+  have _ := hreb
+  have hids : IdsOK s.trackers s.nBlocks := idsOK_of_pending _ _ hpend
+  have hids2 : IdsOK s2.trackers s2.nBlocks :=
+    idsOK_of_pending _ _ fun tr htr => hpend tr (hperm.mem_iff.2 htr)
+  have hrel : SimRel s s2 :=
+    ⟨hp, hdt, ht, he ▸ EconEq.refl s.econ, hperm.map _, hids, hids2⟩
+  obtain ⟨s2', hr, r⟩ := simRel_run k s s2 s' hrel h
+  exact ⟨s2', hr, obsEq_of_simRel r⟩
 
 end Boario
